@@ -43,7 +43,7 @@ import Teleport.Lemmas.GracefulC
 import Teleport.Lemmas.GracefulQ4
 import Teleport.Lemmas.GracefulOrd
 import Teleport.Drv.C08
-import Teleport.Lemmas.SrcFlow
+import Teleport.Lemmas.SrcPaths
 import Teleport.Gen.Transitions
 import Teleport.Gen.PeerClose
 import Teleport.Lemmas.PeerClose
@@ -1020,8 +1020,14 @@ def xKeys : Graceful.Ev × St → List String
 /-- the closer of an idle established session, after `xStart`. -/
 def modelCloser : List String := (((step St.init .xStart).map (xTrace 12)).getD []).flatMap xKeys
 
-def closeKeys : List String := keys (mainFlow Gen.flow_session_closeLocked)
-def discKeys : List String := keys (mainFlow Gen.flow_session_readDisconnected)
+/-- the control-flow paths of `closeLocked` on which its compare-and-swap is won. -/
+def closeWon : List SrcPaths.Path :=
+  Gen.tpaths_session_closeLocked.filter fun p => p.any fun (e : SrcPaths.PEv) => e.kind == "cas" && e.out == "ok"
+/-- … and lost. -/
+def closeLost : List SrcPaths.Path :=
+  Gen.tpaths_session_closeLocked.filter fun p => !(p.any fun (e : SrcPaths.PEv) => e.kind == "cas" && e.out == "ok")
+/-- the statements of the (one) path on which the compare-and-swap is won. -/
+def closeKeys : List String := (closeWon.head?.map SrcPaths.keys).getD []
 
 /-- (function, wait group operation) of every wait-group call of the package. -/
 def wgSites : List (String × String) :=
@@ -1031,11 +1037,14 @@ def wgSites : List (String × String) :=
     `closeLocked` as it is now runs, after its compare-and-swap: hub delete, `notifyClosed`,
     `graceCtxWaitGroup.Wait()` (through `graceCtxWait`), `graceCallCmdWaitGroup.Wait()`, store ActiveClosed,
     `socket.Close`, `postDisconnect` — exactly the order in which `Graceful.step` enables `xHubdel`,
-    `xCtxWait`, `xCallWait`, `xStClosed`, `xSock`, `xRet` — every one of them unconditional; so both
+    `xCtxWait`, `xCallWait`, `xStClosed`, `xSock`, `xRet` — on the ONE control-flow path on which the
+    compare-and-swap is won (the other path: lost → return), so every one of them unconditional; so both
     waits precede the store of ActiveClosed and the closing of the socket (what `C08_close_waits`
     and `C08_reply_before_socket_close` rest on), and in the model the two wait steps are enabled
-    only at counter zero. `readDisconnected` waits for the handler contexts before it closes the
-    socket. The wait groups are counted up and down where the model's threads do it (a site inside
+    only at counter zero. On every path of `readDisconnected` the wait for the handler contexts precedes the
+    socket close, every path that took the session out of the hub reaches that wait before it
+    returns, and the cancel loop is reached also on the path taken while `Close()` is closing the
+    session (the model's `rDSnap` / `rDVisit` in status closing). The wait groups are counted up and down where the model's threads do it (a site inside
     an unexported helper counts for the watched functions that reach it): context group `Add` in
     `startReadAndHandle` (`rAdd`) and in `Push` through `getContext` (`pushStart`), `Done` through
     `putContext` on the same two paths (`hFin`); call group `Add` in `AsyncCall` (`cIssue`), `Done` in
@@ -1044,6 +1053,9 @@ def wgSites : List (String × String) :=
     somewhere else changes a regenerated fact and this theorem no longer checks. -/
 theorem C08_close_waits_sites :
     Gen.transitions_missing = [] ∧
+    Gen.tpaths_session_closeLocked_missing = [] ∧ Gen.tpaths_session_readDisconnected_missing = [] ∧
+    closeWon.length = 1 ∧
+    closeLost.map SrcPaths.tags = [["cas:statusActiveClosing<-statusOk,statusPreparing=fail"]] ∧
     closeKeys.tail = modelCloser ∧ modelCloser.length = 7 ∧
     closeKeys.head? = some "cas:statusActiveClosing<-statusOk,statusPreparing" ∧
     before "wg:ctx.Wait" "store:statusActiveClosed" closeKeys = true ∧
@@ -1053,9 +1065,18 @@ theorem C08_close_waits_sites :
     onlyAfter "wg:ctx.Wait" "call:socket.Close" closeKeys = true ∧
     onlyAfter "wg:call.Wait" "call:socket.Close" closeKeys = true ∧
     onlyAfter "wg:call.Wait" "store:statusActiveClosed" closeKeys = true ∧
-    ((mainFlow Gen.flow_session_closeLocked).filter fun e => e.kind == "wg").map (fun e => (e.name, e.guards)) =
-      [("ctx.Wait", []), ("call.Wait", [])] ∧
-    onlyAfter "wg:ctx.Wait" "call:socket.Close" discKeys = true ∧
+    closeWon.map (fun p => (p.filter fun (e : SrcPaths.PEv) => e.kind == "wg").map SrcPaths.PEv.name) = [["ctx.Wait", "call.Wait"]] ∧
+    Gen.tpaths_session_readDisconnected.all
+      (SrcPaths.precededBy (fun e => e.is "wg" "ctx.Wait") (fun e => e.is "call" "socket.Close")) = true ∧
+    Gen.tpaths_session_readDisconnected.any (fun p => p.any fun (e : SrcPaths.PEv) => e.is "call" "socket.Close") = true ∧
+    -- every path that took the session out of the hub waits for the handler contexts before it returns;
+    -- the cancel loop is reached also when `Close()` is closing the session (status ActiveClosing)
+    Gen.tpaths_session_readDisconnected.all (fun p =>
+      !(p.any fun (e : SrcPaths.PEv) => e.is "call" "sessHub.delete") ||
+        (SrcPaths.rest (fun e => e.is "call" "sessHub.delete") p).any fun e => e.is "wg" "ctx.Wait") = true ∧
+    Gen.tpaths_session_readDisconnected.any (fun p =>
+      (p.any fun (e : SrcPaths.PEv) => e.is "case" "statusActiveClosing") &&
+      (p.any fun (e : SrcPaths.PEv) => e.is "call" "cancel")) = true ∧
     -- the model's waits block until the counter is zero
     (((step St.init .xStart).bind (step · .xHubdel)).map fun s => (step { s with ctx := 1 } .xCtxWait).isNone) = some true ∧
     ((((step St.init .xStart).bind (step · .xHubdel)).bind (step · .xCtxWait)).map fun s =>
